@@ -118,6 +118,17 @@ def run_case(ctx, case):
             if s.startswith("__") or s in BUILTINS or len(s) <= 2 or s in ("print", "CONSTANT", "key"):
                 continue
             occs.append((rel, l, c, s))
+    # only identifiers that are DEFINED somewhere in the generated sources (an attribute of a builtin value such as
+    # `.real` has its definition in typeshed, outside the analysed program)
+    from ..oracles import pyfront
+    defined = set()
+    for rel_, text_ in case["files"].items():
+        try:
+            toks_ = {(l, c): s_ for l, c, s_ in pyfront.name_tokens(text_)}
+            defined |= {toks_[p_] for p_ in pyfront.binding_positions(text_) if p_ in toks_}
+        except Exception:
+            pass
+    occs = [o for o in occs if o[3] in defined]
     # names that also occur as string literals (keys of **{...} calls, getattr) are "reached via strings": excluded
     alltext = "\n".join(case["files"].values())
     occs = [o for o in occs if not re.search(r"['\"]%s['\"]" % re.escape(o[3]), alltext)]
@@ -137,8 +148,12 @@ def run_case(ctx, case):
             kind = kind_of(name, modules)
             if (line, col) in comprehension_positions(case["files"][rel]):
                 kind = "comprehension-variable"
-            if kind == "parameter" and any(re.search(r"[(,]\s*%s=" % re.escape(name), t_) for r_, t_ in case["files"].items() if r_ != rel):
-                kind = "parameter-named-by-keyword-in-another-module"
+            if kind == "parameter":
+                defs_ = {(r_, f_) for r_, t_ in case["files"].items() for f_ in re.findall(r"def (\w+)\([^)]*\b%s\b" % re.escape(name), t_)}
+                cross = any(re.search(r"\b%s\([^)\n]*\b%s=" % (re.escape(f_), re.escape(name)), t2)
+                            for (r_, f_) in defs_ for r2, t2 in case["files"].items() if r2 != r_)
+                if cross:
+                    kind = "parameter-named-by-keyword-in-another-module"
             fresh = "zz_renamed_%d" % n
             text = case["files"][rel]
             path = str(root / rel)
@@ -212,7 +227,9 @@ def run_case(ctx, case):
                 if a_ == new_main:
                     new_main = b_
             nb = run_program(nroot, new_main)
-            if nb != base_behaviour:
+            if nb[0] == "timeout":
+                ctx.inconclusive += 1        # a slow machine is not a behaviour change
+            elif nb != base_behaviour:
                 devs.append(("behaviour-changed:" + kind, where + " original=%r renamed=%r" % (base_behaviour[1] or base_behaviour[0][-80:], nb[1] or nb[0][-80:])))
             # (4) rename back
             try:
